@@ -25,8 +25,8 @@ ENC = [
     "csvpath/scanning/scanner.py:Scanner.is_last",
 ]
 
-# shape = '+'-joined terms; N = line number, R = forward range, V = lone range written backwards
-SHAPES_Q = ["*", "N*", "N", "R", "V", "N+N", "R+N", "N+R", "N+N+N", "R+R"]
+# shape = '+'-joined terms; N = line number (ascending), M = line number in any order, R = forward range, V = lone range written backwards
+SHAPES_Q = ["*", "N*", "N", "R", "V", "N+N", "R+N", "N+R", "N+N+N", "R+R", "M+M+M"]
 SHAPES_T = SHAPES_Q + ["R+N+N", "N+R+N", "N+N+R", "R+R+N", "R+N+R", "N+R+R", "N+N+N+N"]
 
 
@@ -50,7 +50,7 @@ def render(shape, ns):
     out = []
     i = 0
     for t in _terms(shape):
-        if t == "N":
+        if t in ("N", "M"):
             out.append(f"{ns[i]}")
             i += 1
         else:
@@ -75,7 +75,13 @@ def shape_pre(shape, n0, n1, n2, n3, n4, n5, hi) -> bool:
     i = 0
     prev_end = -1
     for t in _terms(shape):
-        if t == "N":
+        if t == "M":
+            # line numbers in any order, pairwise different (beyond the property's ascending lists; docs: '+' is a union)
+            for j in range(i):
+                if ns[j] == ns[i]:
+                    return False
+            i += 1
+        elif t == "N":
             if not ns[i] > prev_end:
                 return False
             prev_end = ns[i]
@@ -100,7 +106,7 @@ def denotes(shape, n0, n1, n2, n3, n4, n5, line) -> bool:
         return line >= ns[0]
     i = 0
     for t in _terms(shape):
-        if t == "N":
+        if t in ("N", "M"):
             if line == ns[i]:
                 return True
             i += 1
